@@ -14,10 +14,10 @@ import (
 	"fmt"
 	"go/ast"
 	"go/constant"
-	"math/big"
 	"go/parser"
 	"go/token"
 	"go/types"
+	"math/big"
 	"os"
 	"path/filepath"
 	"sort"
@@ -187,7 +187,7 @@ var targets = []target{
 	{File: "tree/tree.go", Out: "GenTree.v", Module: "tree/tree.go (CalculateRoot) and tree/appendonlytree.go (hashing loop of AddLeaf)",
 		Hash: true, Structs: []string{"TreeNode"}, StructsFrom: map[string]string{"TreeNode": "tree/types/types.go"},
 		Consts: map[string]string{"types.DefaultHeight": "tree/types/types.go"},
-		Ctx: "Tree", Oracles: map[string]string{"getRHTNode": "rht"}, DropParams: []string{"tx"},
+		Ctx:    "Tree", Oracles: map[string]string{"getRHTNode": "rht"}, DropParams: []string{"tx"},
 		Funcs: []string{"CalculateRoot", "Tree.GetLeaf", "Tree.getSiblings"}},
 	{File: "tree/appendonlytree.go", Out: "GenAppendOnlyTree.v", Module: "tree/appendonlytree.go (hashing loop of AddLeaf)",
 		Hash: true, Structs: []string{"TreeNode"}, StructsFrom: map[string]string{"TreeNode": "tree/types/types.go"},
@@ -204,10 +204,10 @@ var targets = []target{
 			{"newNodes", ty{k: kList, sub: []ty{{k: kStruct, name: "TreeNode"}}}}}}}},
 	{File: "aggsender/flows/flow_base.go", Out: "GenFlowBase.v",
 		Module: "aggsender/flows/flow_base.go (getLastSentBlockAndRetryCount, getNextHeightAndPreviousLER) and the CertificateStatus predicates of agglayer/types/types.go",
-		Hash: true, IntLit: true, Ctx: "baseFlow",
+		Hash:   true, IntLit: true, Ctx: "baseFlow",
 		Structs: []string{"CertificateHeader"}, StructsFrom: map[string]string{"CertificateHeader": "aggsender/types/types.go"},
 		StructFields: map[string][]string{"CertificateHeader": {"Height", "RetryCount", "PreviousLocalExitRoot", "NewLocalExitRoot", "FromBlock", "ToBlock", "Status"}},
-		IntTypes: []string{"CertificateStatus"},
+		IntTypes:     []string{"CertificateStatus"},
 		Extra: []extraSrc{{File: "agglayer/types/types.go", Alias: "agglayertypes",
 			Funcs: []string{"CertificateStatus.IsOpen", "CertificateStatus.IsClosed", "CertificateStatus.IsSettled", "CertificateStatus.IsInError"}}},
 		CtxCalls: map[string]ctxCall{
@@ -218,9 +218,9 @@ var targets = []target{
 		},
 		Funcs: []string{"baseFlow.getLastSentBlockAndRetryCount", "baseFlow.getNextHeightAndPreviousLER"}},
 	{File: "aggsender/types/certificate_build_params.go", Out: "GenBuildParams.v",
-		Module: "aggsender/types/certificate_build_params.go (Range, NumberOfBridges/Claims/Blocks, EstimatedSize, IsEmpty, IsARetry, MaxDepositCount)",
-		IntLit: true,
-		Structs: []string{"Bridge", "Claim", "CertificateHeader", "CertificateBuildParams"},
+		Module:      "aggsender/types/certificate_build_params.go (Range, NumberOfBridges/Claims/Blocks, EstimatedSize, IsEmpty, IsARetry, MaxDepositCount)",
+		IntLit:      true,
+		Structs:     []string{"Bridge", "Claim", "CertificateHeader", "CertificateBuildParams"},
 		StructsFrom: map[string]string{"Bridge": "bridgesync/processor.go", "Claim": "bridgesync/processor.go", "CertificateHeader": "aggsender/types/types.go"},
 		StructFields: map[string][]string{
 			"Bridge": {"BlockNum", "Metadata", "DepositCount"}, "Claim": {"BlockNum", "Metadata"}, "CertificateHeader": {"Height", "FromBlock"},
@@ -235,8 +235,8 @@ var targets = []target{
 			"CertificateBuildParams.IsARetry", "CertificateBuildParams.MaxDepositCount"}},
 	{File: "aggsender/statuschecker/initial_state.go", Out: "GenInitialState.v",
 		Module: "aggsender/statuschecker/initial_state.go (initialStatus.process, checkAgglayerConsistenceCerts, getLatestAggLayerCert) and the CertificateStatus predicates of agglayer/types/types.go",
-		Hash: true, IntLit: true, Ctx: "initialStatus", DropCalls: []string{"logData"},
-		Structs: []string{"AggHeader", "LocalHeader", "initialStatusResult"},
+		Hash:   true, IntLit: true, Ctx: "initialStatus", DropCalls: []string{"logData"},
+		Structs:      []string{"AggHeader", "LocalHeader", "initialStatusResult"},
 		StructsFrom:  map[string]string{"AggHeader": "agglayer/types/types.go", "LocalHeader": "aggsender/types/types.go"},
 		StructGoName: map[string]string{"AggHeader": "CertificateHeader", "LocalHeader": "CertificateHeader"},
 		TypeAlias:    map[string]string{"agglayertypes.CertificateHeader": "AggHeader", "types.CertificateHeader": "LocalHeader"},
@@ -248,7 +248,7 @@ var targets = []target{
 		Funcs: []string{"initialStatus.getLatestAggLayerCert", "initialStatus.checkAgglayerConsistenceCerts", "initialStatus.process"}},
 	{File: "aggoracle/oracle.go", Out: "GenOracle.v",
 		Module: "aggoracle/oracle.go (getLastFinalizedGER, processLatestGER: one tick of the GER oracle)",
-		Hash: true, Ctx: "AggOracle", DropParams: []string{"ctx"}, OutParams: []string{"blockNumToFetch"},
+		Hash:   true, Ctx: "AggOracle", DropParams: []string{"ctx"}, OutParams: []string{"blockNumToFetch"},
 		ErrSentinel:  map[string]string{"ErrBlockNotProcessed": "ENotFound"},
 		SynthStructs: map[string][]string{"Header": {"Number"}},
 		Structs:      []string{"L1InfoTreeLeaf"},
@@ -264,8 +264,8 @@ var targets = []target{
 	{File: "aggsender/flows/flow_base.go", Out: "GenLimitCert.v",
 		Module: "aggsender/flows/flow_base.go (limitCertSize, getNewLocalExitRoot, verifyRetryCertStartingBlock), on top of Gen/GenBuildParams.v",
 		IntLit: true, Hash: true, Ctx: "baseFlow", Imports: []string{"Gen.GenBuildParams"}, DropParams: []string{"ctx"},
-		CtxCalls: map[string]ctxCall{"GetExitRootByIndex": {Var: "exitRootByIndex", Params: []ty{{k: kInt}}, Rets: []ty{hashT, {k: kErr}}}},
-		Structs: []string{"Bridge", "Claim", "CertificateHeader", "CertificateBuildParams", "BaseFlowConfig"},
+		CtxCalls:      map[string]ctxCall{"GetExitRootByIndex": {Var: "exitRootByIndex", Params: []ty{{k: kInt}}, Rets: []ty{hashT, {k: kErr}}}},
+		Structs:       []string{"Bridge", "Claim", "CertificateHeader", "CertificateBuildParams", "BaseFlowConfig"},
 		ExternStructs: []string{"Bridge", "Claim", "CertificateHeader", "CertificateBuildParams"},
 		StructsFrom: map[string]string{"Bridge": "bridgesync/processor.go", "Claim": "bridgesync/processor.go", "CertificateHeader": "aggsender/types/types.go",
 			"CertificateBuildParams": "aggsender/types/certificate_build_params.go"},
@@ -276,17 +276,38 @@ var targets = []target{
 		IntTypes:  []string{"CertificateType"},
 		TypeAlias: map[string]string{"types.CertificateBuildParams": "CertificateBuildParams"},
 		ExternFuncs: map[string]externFn{
-			"CertificateBuildParams.EstimatedSize":  {Rets: []ty{{k: kInt}}, RecvOpt: true},
-			"CertificateBuildParams.NumberOfBlocks": {Rets: []ty{{k: kZ}}, RecvOpt: true},
-			"CertificateBuildParams.Range": {Rets: []ty{{k: kOpt, sub: []ty{{k: kStruct, name: "CertificateBuildParams"}}}, {k: kErr}}},
+			"CertificateBuildParams.EstimatedSize":   {Rets: []ty{{k: kInt}}, RecvOpt: true},
+			"CertificateBuildParams.NumberOfBlocks":  {Rets: []ty{{k: kZ}}, RecvOpt: true},
+			"CertificateBuildParams.Range":           {Rets: []ty{{k: kOpt, sub: []ty{{k: kStruct, name: "CertificateBuildParams"}}}, {k: kErr}}},
 			"CertificateBuildParams.NumberOfBridges": {Rets: []ty{{k: kZ}}, RecvOpt: true},
 			"CertificateBuildParams.MaxDepositCount": {Rets: []ty{{k: kInt}}, RecvOpt: true},
 			"CertificateBuildParams.IsARetry":        {Rets: []ty{{k: kBool}}, RecvOpt: true},
 		},
 		Funcs: []string{"baseFlow.limitCertSize", "baseFlow.getNewLocalExitRoot", "baseFlow.verifyRetryCertStartingBlock"}},
+	{File: "aggsender/flows/max_l2blocknumber_limiter.go", Out: "GenAdaptCert.v",
+		Module: "aggsender/flows/max_l2blocknumber_limiter.go (IsEnabled, IsAllowedBlockNumber, isUpcomingNextRange, AdaptCertificate), on top of Gen/GenBuildParams.v",
+		IntLit: true, Hash: true, Ctx: "MaxL2BlockNumberLimiter", Imports: []string{"Gen.GenBuildParams"},
+		Structs:       []string{"Bridge", "Claim", "CertificateHeader", "CertificateBuildParams"},
+		ExternStructs: []string{"Bridge", "Claim", "CertificateHeader", "CertificateBuildParams"},
+		StructsFrom: map[string]string{"Bridge": "bridgesync/processor.go", "Claim": "bridgesync/processor.go", "CertificateHeader": "aggsender/types/types.go",
+			"CertificateBuildParams": "aggsender/types/certificate_build_params.go"},
+		StructFields: map[string][]string{
+			"Bridge": {"BlockNum", "Metadata", "DepositCount"}, "Claim": {"BlockNum", "Metadata"}, "CertificateHeader": {"Height", "FromBlock"},
+			"CertificateBuildParams": {"FromBlock", "ToBlock", "Bridges", "Claims", "RetryCount", "LastSentCertificate", "CertificateType"}},
+		IntTypes:  []string{"CertificateType"},
+		TypeAlias: map[string]string{"types.CertificateBuildParams": "CertificateBuildParams"},
+		ExternFuncs: map[string]externFn{
+			"CertificateBuildParams.Range":           {Rets: []ty{{k: kOpt, sub: []ty{{k: kStruct, name: "CertificateBuildParams"}}}, {k: kErr}}},
+			"CertificateBuildParams.NumberOfBridges": {Rets: []ty{{k: kZ}}, RecvOpt: true},
+			"CertificateBuildParams.NumberOfClaims":  {Rets: []ty{{k: kZ}}, RecvOpt: true},
+			"CertificateBuildParams.IsEmpty":         {Rets: []ty{{k: kBool}}, RecvOpt: true},
+			"CertificateBuildParams.IsARetry":        {Rets: []ty{{k: kBool}}, RecvOpt: true},
+		},
+		Funcs: []string{"MaxL2BlockNumberLimiter.IsEnabled", "MaxL2BlockNumberLimiter.IsAllowedBlockNumber", "MaxL2BlockNumberLimiter.isUpcomingNextRange",
+			"MaxL2BlockNumberLimiter.AdaptCertificate"}},
 	{File: "bridgeservice/bridge.go", Out: "GenL1InfoIndex.v",
 		Module: "bridgeservice/bridge.go (getFirstL1InfoTreeIndexForL1Bridge, getFirstL1InfoTreeIndexForL2Bridge: the two binary searches of the l1-info-tree-index endpoint)",
-		Hash: true, IntLit: true, Ctx: "BridgeService", DropParams: []string{"ctx"},
+		Hash:   true, IntLit: true, Ctx: "BridgeService", DropParams: []string{"ctx"},
 		Structs:     []string{"L1InfoTreeLeaf", "VerifyBatches", "Root"},
 		StructsFrom: map[string]string{"L1InfoTreeLeaf": "l1infotreesync/processor.go", "VerifyBatches": "l1infotreesync/processor.go", "Root": "tree/types/types.go"},
 		StructFields: map[string][]string{"L1InfoTreeLeaf": {"BlockNumber", "L1InfoTreeIndex", "MainnetExitRoot"},
@@ -319,11 +340,14 @@ var targets = []target{
 }
 
 type tr struct {
-	tg       target
-	fset     *token.FileSet
-	file     *ast.File
-	structs  map[string]*structDef
-	consts   map[string]struct{ code string; t ty }
+	tg      target
+	fset    *token.FileSet
+	file    *ast.File
+	structs map[string]*structDef
+	consts  map[string]struct {
+		code string
+		t    ty
+	}
 	funcs    map[string]*ast.FuncDecl // key: "Recv.Name" or "Name"
 	rets     map[string]ty            // translated function name -> result type
 	ctxVars  map[string]ty            // Section variables (context selectors), name -> type
